@@ -26,6 +26,26 @@ NOT_YET = "check not built yet in this round (work in progress; see DESIGN.md se
 
 
 def main():
+    d = os.path.join(V, "tools", "manifest.d")
+    if os.path.isdir(d):
+        for fn in sorted(os.listdir(d)):
+            if fn.endswith(".json"):
+                e = json.load(open(os.path.join(d, fn)))
+                e.setdefault("note", "")
+                e["note"] = PROOF_NOTE + e["note"]
+                e.setdefault("design", "7/" + fn[:-5])
+                CHECKS[fn[:-5]] = e
+    # merge known-findings snippets
+    kd = os.path.join(V, "known_findings.d")
+    kf = {"findings": [], "fixed": []}
+    main_kf = os.path.join(V, "known_findings.base.json")
+    srcs = ([main_kf] if os.path.exists(main_kf) else []) + ([os.path.join(kd, f) for f in sorted(os.listdir(kd)) if f.endswith(".json")] if os.path.isdir(kd) else [])
+    for p in srcs:
+        e = json.load(open(p))
+        kf["findings"] += e.get("findings", [])
+        kf["fixed"] += e.get("fixed", [])
+    with open(os.path.join(V, "known_findings.json"), "w") as f:
+        json.dump(kf, f, indent=1)
     checks = []
     for pid in ALL:
         if pid not in CHECKS:
